@@ -23,6 +23,10 @@ SendsData(c) == Len(ob'[c].csent) > Len(ob[c].csent) /\ ob'[c].csent[Len(ob'[c].
 DataOnlyAfterTClose == \A c \in Conns : SendsData(c) => st[c].tcl # "no"
 \* the client sends its data chunks only after it has seen the target's half-close (target ends first, upload goes on)
 DataOnlyAfterTargetFin == \A c \in Conns : SendsData(c) => Has(ob[c].clog, 0)
+\* the client sends a chunk that fails authentication only after it has seen the target's half-close (the target replied
+\* and finished first; the proxy legitimately passed the FIN on), and keeps the connection open
+SendsBad(c) == Len(ob'[c].csent) > Len(ob[c].csent) /\ ob'[c].csent[Len(ob'[c].csent)].k \in {"bad", "badaddr"}
+BadOnlyAfterTargetFin == \A c \in Conns : SendsBad(c) => Has(ob[c].clog, 0)
 \* the target speaks only after the handshake deadline of the connection has long passed (the relay outlives it)
 TargetSendsLate == \A c \in Conns : ob'[c].tsent > ob[c].tsent => now > ob[c].acceptAt + Timeout
 \* and the client does not end the connection before the target has spoken
